@@ -4,7 +4,7 @@ TIER="${1:-quick}"
 cd "$(dirname "$0")/.."
 for id in $(python3 -c "import json; print(' '.join(c['property_id'] for c in json.load(open('MANIFEST.json'))['checks']))"); do
   S=$(date +%s)
-  ./check "$id" --tier "$TIER" > /tmp/run_all_$id.out 2>&1
+  STBEM_REPO="${VP_RUN_REPO:-/repo}" ./check "$id" --tier "$TIER" > /tmp/run_all_$id.out 2>&1
   RC=$?
   E=$(date +%s)
   echo "$id tier=$TIER rc=$RC wall=$((E-S))s $(grep -E '^(OK|VIOLATION|INCONCLUSIVE)' /tmp/run_all_$id.out | head -2 | cut -c1-160 | tr '\n' ' ')"
